@@ -620,3 +620,14 @@ fn pypipegraph2(_py: Python, m: &Bound<PyModule>) -> PyResult<()> {
     m.add_class::<PyPPG2Evaluator>()?;
     Ok(())
 }
+
+/// Verification hooks (add-only, compiled only with `--cfg tyberiusprime_pypipegraph2_verif`):
+/// re-exports the engine types that `PPGEvaluatorStrategy` mentions, so that an external
+/// harness can plug in its own strategy and read `get_job_output` results.
+#[cfg(tyberiusprime_pypipegraph2_verif)]
+pub mod verif_hooks {
+    pub use crate::engine::{EdgeInfo, JobOutputResult, NodeInfo};
+    pub fn job_id(n: &NodeInfo) -> &str {
+        n.get_job_id()
+    }
+}
